@@ -5,7 +5,7 @@ from __future__ import annotations
 import ast
 from typing import Dict, List, Optional, Set, Tuple
 
-from ..core import (AnalysisError, FuncInfo, Index, Result, call_name, call_recv, const_str, dotted, iter_calls,
+from ..core import (seq, AnalysisError, FuncInfo, Index, Result, call_name, call_recv, const_str, dotted, iter_calls,
                     norm_stmt, src, walk_no_nested)
 from ..templates import Opq, parts_text
 from ..util import closure_rule, params, single_assignments, stale_loop_reads
@@ -157,7 +157,7 @@ def check_c06(idx: Index, tier: str, res: Result) -> None:
                           norm_stmt(n), "the shared arrayed-element table is written by %s" % writers, key="ALIAS/get_cloned_model/_elements")
             else:
                 res.note("clone shares %s by reference (not result-relevant state by table A.5)" % norm_stmt(n)[:80])
-    res.floor("attribute assignments in get_cloned_model", nassign, 12)
+    res.floor("attribute assignments in get_cloned_model", nassign, 5)
     # every table of MODEL_STATE is either built fresh by the Model constructor / element constructors or copied
     rets = [n for n in walk_no_nested(clone.node) if isinstance(n, ast.Return) and n.value is not None and not (isinstance(n.value, ast.Constant))]
     newm = [n for n in walk_no_nested(clone.node) if isinstance(n, ast.Assign) and isinstance(n.value, ast.Call) and call_name(n.value) == "Model"]
@@ -294,7 +294,12 @@ def _channel_wiring(res: Result, fi: FuncInfo, obj_names: Set[str], label: str) 
         if isinstance(n, ast.Assign) and len(n.targets) == 1:
             t = n.targets[0]
             if isinstance(t, ast.Attribute) and (dotted(t.value) or "") in obj_names:
-                keys = _dict_reads(n.value)
+                v_ = n.value
+                if isinstance(v_, ast.IfExp):        # X = d["k"] if "k" in d else <default>
+                    v_ = v_.body if _dict_reads(v_.body) else v_.orelse
+                if isinstance(v_, ast.Call) and call_name(v_) == "get" and v_.args and const_str(v_.args[0]) is not None:      # d.get("k", default)
+                    v_ = ast.Subscript(value=v_.func.value, slice=v_.args[0], ctx=ast.Load())
+                keys = _dict_reads(v_)
                 if keys and keys[-1] in KINDS + RUNSPECS + ("runspecs",):
                     n_inst += 1
                     res.check("WIRING", "%s: %s.%s <- [%s]" % (label, src(t.value), t.attr, "][".join(keys)), keys[-1] == t.attr, fi.loc(n), fi.qual,
@@ -356,7 +361,7 @@ def check_c07(idx: Index, tier: str, res: Result) -> None:
     n += _channel_wiring(res, idx.func(SERVER, "BptkServer._run_resource"), {"scenario"}, "REST settings")
     n += _channel_wiring(res, idx.func(RUNNER, "SdRunner.run_scenario_step"), {"sc"}, "per-step settings")
     n += _channel_wiring(res, idx.func(RUNNER, "SdRunner._run_scenarios"), {"sc"}, "batch run")
-    res.floor("channel wiring instances", n, 20)
+    res.floor("channel wiring instances", n, 14)
     # each channel covers each kind
     for rel, qual, label, kinds in ((SCEN, "SimulationScenario.__init__", "registration", KINDS + RUNSPECS),
                                     (SCEN, "SimulationScenario.configure_settings", "session settings", KINDS + RUNSPECS),
@@ -384,7 +389,7 @@ def check_c07(idx: Index, tier: str, res: Result) -> None:
                       key="APPLY/%s/change_runspecs-wiring" % qual)
         # settings are applied before the simulation starts
         starts = [c for c in iter_calls(fi.node) if call_name(c) == "start"]
-        ok = bool(starts) and all(c.lineno < starts[-1].lineno for cs in calls.values() for c in cs)
+        ok = bool(starts) and all(seq(c) < seq(starts[-1]) for cs in calls.values() for c in cs)
         res.check("APPLY", "%s applies settings before start()" % qual, ok, fi.loc(), fi.qual, "start()", "settings are applied after the simulation ran",
                   key="APPLY/%s/order" % qual)
 
@@ -481,10 +486,13 @@ def check_c07(idx: Index, tier: str, res: Result) -> None:
         # earlier file's scenarios are loaded, only the files read so far - base values defined in a later file never reach them
         if ok and len(st_[0].value.args) >= 2:
             files = st_[0].value.args[1]
+            if isinstance(files, ast.Name):         # local alias of the list
+                al = single_assignments(fac.node).get(files.id, [])
+                if len(al) == 1 and isinstance(al[0], (ast.Attribute, ast.Name)):
+                    files = al[0]
             grown = [nd for nd in walk_no_nested(fac.node)
                      if (isinstance(nd, ast.AugAssign) and src(nd.target) == src(files))
-                     or (isinstance(nd, ast.Call) and call_name(nd) in ("append", "extend", "insert") and src(nd.func.value) == src(files))
-                     or (isinstance(nd, ast.Assign) and src(nd.targets[0]) == src(files))]
+                     or (isinstance(nd, ast.Call) and call_name(nd) in ("append", "extend", "insert") and src(nd.func.value) == src(files))]
             res.check("MERGE", "factory searches the complete file set for %s" % base, not grown, fac.loc(st_[0]), fac.qual, src(st_[0].value)[:100],
                       "manager.%s is collected from %s, a list __readScenario extends by one file per call (%s): scenarios loaded from an earlier "
                       "file never see base values defined in a later one" % (base, src(files), norm_stmt(grown[0])[:60] if grown else ""),
